@@ -13,8 +13,9 @@ What a solver can reach here is small and only this is claimed:
     temporary directories.
 (2) entry filtering and pairing.  GitPython is replaced by a nondeterministic
     stub: diff() returns 0..2 (3) arbitrary entries (notebook / other suffix /
-    absent per side, blob present / None, file on disk or not for the working
-    tree), the repository is found 0..2 directories above the start directory,
+    absent per side, blob present / None or the same blob on both sides, file
+    on disk or not for the working tree), the repository is found by the real
+    get_repo 0..2 directories above the start directory,
     refs are commit / index / working tree, paths None / one / several.  The
     pairs yielded by the real changed_notebooks must equal the by-construction
     expectation (non-notebooks skipped, the null file for missing sides, the
@@ -48,9 +49,9 @@ def main():
     chk.outside += ["GitPython / git behaviour (which files are reported as changed, renames, staging semantics)",
                     "is_gitref / resolve_diff_args disambiguation against a real repository",
                     "git filters (apply_possible_filter is stubbed to 'no filter')"]
-    chk.stubs += ["nbdime.utils.os -> FakeOS (cwd model over tokens)", "nbdime.gitfiles.get_repo -> stub repository",
+    chk.stubs += ["nbdime.utils.os -> FakeOS (cwd model over tokens)", "nbdime.gitfiles.Repo -> stand-in for git.Repo (only one directory is a repository; the real get_repo walks up to it)",
                   "nbdime.gitfiles.apply_possible_filter -> identity", "nbdime.gitfiles.io -> in-memory files"]
-    chk.require_goals(["pushd-body-raises", "pairs-yielded", "non-notebook-skipped", "working-tree"])
+    chk.require_goals(["pushd-body-raises", "pairs-yielded", "non-notebook-skipped", "working-tree", "identical-blobs"])
     return chk.finish()
 
 
